@@ -193,4 +193,38 @@ example : assembleMaxcv false (boundViolation [(.fin 1, .fin 0)] [1/2]) [3] [-1]
   show (∀ e ∈ excesses (.fin (0 : Rat)) .pinf (1/2), e ≤ 0) ∧ True
   decide +kernel
 
+/-- the blocks the code concatenates are already clipped (`np.maximum(·, 0.0)`); clipping does not change the
+largest violation -/
+theorem maxInit0_clip (l : List Rat) : maxInit0 (l.map fun r => max r 0) = maxInit0 l := by
+  obtain ⟨a0, a1, a2⟩ := maxInit0_spec l
+  obtain ⟨c0, c1, c2⟩ := maxInit0_spec (l.map fun r => max r 0)
+  apply le_antisymm
+  · rcases c2 with c | c
+    · rw [c]; exact a0
+    · obtain ⟨r, hr, e⟩ := List.mem_map.mp c
+      rw [← e]
+      exact max_le (a1 r hr) a0
+  · rcases a2 with h | h
+    · rw [h]; exact c0
+    · exact le_trans (le_max_left _ 0) (c1 _ (List.mem_map.mpr ⟨_, h, rfl⟩))
+
+/-- **C02, inequality constraints end to end.**  With the clipped blocks the code builds — the bound block, the
+residuals of the user's rows evaluated on the REDUCED AND SCALED system at the internal point `z`, the nonlinear
+values — `Problem.maxcv` is the largest amount by which the rebuilt point `embed R z` exceeds a finite bound, a
+user row exceeds its right-hand side AT THE REBUILT POINT, or a nonlinear value exceeds zero (and zero if none does). -/
+theorem maxcv_true_inequalities (bf : Bool) (bs : List (Lim Rat × Lim Rat)) (x : List Rat)
+    (R : Reduction Rat) (rows : List (List Rat × Rat)) (z cub : List Rat)
+    (hbox : bf = true → InBox bs x)
+    (h1 : R.fixedVals.length = R.fixed.length) (h4 : R.factor.length = z.length) (h5 : R.shift.length = z.length)
+    (hrows : ∀ ab ∈ rows, ab.1.length = R.fixed.length ∧ z.length = (freePart R.fixed ab.1).length) :
+    assembleMaxcv bf (boundViolation bs x)
+      ((rows.map fun ab => dotL (hadamard (freePart R.fixed ab.1) R.factor) z -
+        (ab.2 - dotL (fixedPart R.fixed ab.1) (fixedOnly R.fixed R.fixedVals) - dotL (freePart R.fixed ab.1) R.shift)).map
+          fun r => max r 0)
+      (cub.map fun r => max r 0) =
+    max (maxInit0 (boundExcesses bs x))
+      (max (maxInit0 (rows.map fun ab => dotL ab.1 (embed R z) - ab.2)) (maxInit0 cub)) := by
+  rw [maxcv_assembled_true bf bs x _ _ hbox, maxInit0_clip, maxInit0_clip,
+    linear_violation_true R rows z h1 h4 h5 hrows]
+
 end Cobyqa
